@@ -1,4 +1,5 @@
 import GraphSlam.Props.C02.Chi2
 import GraphSlam.Props.C02.Model
+import GraphSlam.Props.Tie.GraphPy
 
 /-! C02 — umbrella. -/
